@@ -295,17 +295,27 @@ package aggregate
 //@ func makeAccumulatorFunc$9$1
 //@   ensures[C04] quantile-add-has-value: hasValue
 //@ func makeAccumulatorFunc$9$2
+//@   panics may
 //@   ensures quantile-value-total: true
+//@   at aggregate.quantile assert[C04] quantile-of-the-groups-samples-with-the-steps-parameter: $q == arg && sameslice($points, points)
 //@ func makeAccumulatorFunc$9$3
 //@   ensures[C04,C07] quantile-has-value-reports: result == hasValue
 //@ func makeAccumulatorFunc$9$4
 //@   ensures[C04,C07] quantile-reset-forgets: !hasValue
 //@   ensures[C04,C07] quantile-reset-clears-the-state: arg == a && len(points) == 0
-// quantile: index arithmetic on floats (floor, max, min of q*(n-1)) - not decidable with uninterpreted
-// float operations; the function is a transcription of promql/quantile.go and is assumed not to panic.
+// quantile (C04, C13): no value without points or for a NaN parameter, the infinities outside [0, 1]; the
+// index arithmetic (floor/max/min of q*(n-1), then int(...)) only ever runs for a parameter that is a number
+// within [0, 1] over at least one point. That the indices computed from such a parameter lie within the
+// points is float arithmetic outside the uninterpreted-float model: NOT proved - the index expression is
+// declared `mayfail` and the function `panics may` (so is the quantile accumulator's ValueFunc).
 //@ func quantile
-//@   trusted float index arithmetic is outside the uninterpreted-float model (transcription of the reference's quantile)
-//@   assigns elems(float64)
+//@   assigns elems(float64)@points
+//@   ensures[C04,C13] nothing-without-points-or-for-a-nan-parameter: len(points) == 0 || isnan(q) ==> isnan(result)
+//@   ensures[C04] infinities-outside-the-unit-interval: len(points) > 0 && !isnan(q) ==> (q < 0.0 ==> result == inf(-1)) && (q > 1.0 ==> result == inf(1))
+//@   at line "n := float64(len(points))" assert[C13] index-arithmetic-only-for-a-parameter-in-range: !isnan(q) && q >= 0.0 && q <= 1.0 && len(points) > 0
+//@   implconv line "return points[int(lowerIndex)]*(1-weight) + points[int(upperIndex)]*weight"
+//@   mayfail line "return points[int(lowerIndex)]*(1-weight) + points[int(upperIndex)]*weight"
+//@   panics may
 // hashMetric (C04, C19): output labels of a group. For without(...) the grouping labels AND the metric
 // name are deleted (the reference engine: lb.Del(grouping...); lb.Del(labels.MetricName)); for by(...)
 // only the grouping labels are kept. The label algebra itself (labels.Builder, hashing) is assumed.
